@@ -53,7 +53,7 @@ var scratch vk.Scratch
 func TestMain(m *testing.M) { vk.Main(m, "C08") }
 
 type Case struct {
-	Op    string   `json:"op"` // str | tostr | firstdiff | plural
+	Op    string   `json:"op"` // str | tostr | firstdiff | plural | maxstr
 	N     int      `json:"n"`  // width 1,2,4,8
 	S     vk.Hex   `json:"s,omitempty"`
 	Words vk.Hex   `json:"words,omitempty"` // in-range words for ToStr
@@ -142,12 +142,64 @@ func checkStr(bw bitword.Interface, n int, s string) *vk.Failure {
 	return nil
 }
 
+// checkMaxStr: Get and FirstDiff at the top of a string of 2^28 bytes (2^31 bits: word indexes of width 1 leave int32).
+// a is the whole string, b the same memory without its last `cut` bytes, so they never differ below lim;
+// a private copy of a's tail with one bit flipped provides a difference.
+func checkMaxStr(bw bitword.Interface, n, back, cut int) *vk.Failure {
+	if back < 0 || back > 4096 || cut < 0 || cut > 64 {
+		return nil
+	}
+	a, b := gen.MaxString(0), gen.MaxString(cut)
+	per := 8 / n
+	nwa, nwb := per*len(a), per*len(b)
+	for _, i := range []int{0, 1, per*8 + 1, nwa/2 + 3, nwa - 1, nwa - 2, nwa - per, nwa - per - 1, nwa - back - 1} {
+		if i < 0 || i >= nwa {
+			continue
+		}
+		want := byte(0)
+		for k := 0; k < n; k++ {
+			want = want<<1 | byte(gen.MaxStrBit(int64(i)*int64(n)+int64(k)))
+		}
+		var g byte
+		if f := vk.Try(fmt.Sprintf("BitWord[%d].Get(string of 2^28 bytes, %d)", n, i), func() { g = bw.Get(a, i) }); f != nil {
+			return f
+		}
+		if g != want {
+			return vk.Failf("get", "BitWord[%d].Get(string of 2^28 bytes, %d) = %d, want %d", n, i, g, want)
+		}
+	}
+	from := nwb - back
+	if from < 0 {
+		return nil
+	}
+	for _, end := range []int{-1, nwb, nwb - 1, nwa, nwa + 5, math.MaxInt} {
+		lim := end
+		if end == -1 {
+			lim = nwa
+		}
+		lim = min(lim, nwa, nwb)
+		var g int
+		if f := vk.Try(fmt.Sprintf("BitWord[%d].FirstDiff(2^28 bytes, the same less %d bytes, %d, %d)", n, cut, from, end), func() { g = bw.FirstDiff(a, b, from, end) }); f != nil {
+			return f
+		}
+		if g != lim {
+			return vk.Failf("firstdiff", "BitWord[%d].FirstDiff(2^28 bytes, the same less %d bytes, from=%d, end=%d) = %d, want %d (no difference below the limit)", n, cut, from, end, g, lim)
+		}
+	}
+	if j, bad := gen.MaxStringDamage(); bad {
+		return vk.Failf("mutates", "byte %d of the 2^28-byte string argument was modified", j)
+	}
+	return nil
+}
+
 func check(c Case) *vk.Failure {
 	bw, ok := bitword.BitWord[c.N]
 	if !ok || bw == nil {
 		return vk.Failf("missing-width", "bitword.BitWord[%d] is missing", c.N)
 	}
 	switch c.Op {
+	case "maxstr":
+		return checkMaxStr(bw, c.N, c.From, c.End)
 	case "cold-start":
 		if coldStartResult != "" {
 			return vk.Failf("cold-start", "%s", coldStartResult)
@@ -245,6 +297,9 @@ func check(c Case) *vk.Failure {
 func classify(c Case) (bool, []string) {
 	if c.Op == "cold-start" {
 		return false, []string{"cold-start-failure"}
+	}
+	if c.Op == "maxstr" {
+		return true, []string{"op:maxstr", "maximum-string(2^28 bytes)"}
 	}
 	labels := []string{"op:" + c.Op, fmt.Sprintf("n:%d", c.N)}
 	if c.Class != "" {
@@ -439,5 +494,13 @@ func TestGrid(t *testing.T) {
 		}
 	}
 	vk.CountConstructed(evals, nontriv, "grid-firstdiff")
+	// the maximum string: 2^28 bytes = 2^31 bits
+	for _, n := range widths {
+		for _, back := range []int{0, 1, 9, 100} {
+			for _, cut := range []int{0, 1, 8} {
+				checker.Run(t, Case{Op: "maxstr", N: n, From: back, End: cut, Class: "grid-maximum-string"})
+			}
+		}
+	}
 	vk.MarkExhaustive("all 1-byte strings x widths x indexes; all pairs of 1-byte strings x widths x all windows from in [0,words+1], end in [-1,words+1]")
 }
